@@ -179,11 +179,11 @@ func RunC07Bytes(c *Ctx) {
 	cv["byte_edit_items"] = len(jobs)
 	cv["byte_edit_wall_s"] = time.Since(start).Seconds()
 	cv["byte_edit_rule"] = "for every non-replay menu transaction of the worlds pay, coin, pool, book, stake (rendered with the right nonce on the genesis state): every single-byte substitution (thorough: all 255 values per position; quick: 16 structure-changing / bit-flipping values), every deletion and every truncation (thorough: plus 9 insertion values per position) is given to CheckTx and then DeliverTx of a real node inside an open block; an accepted neighbour resets the node"
-	if old, ok := cv["traces_validated_against_impl"].(int64); ok {
-		cv["traces_validated_against_impl"] = old + delivered
-	}
+	old, _ := cv["traces_validated_against_impl"].(int64)
+	cv["traces_validated_against_impl"] = old + delivered
 	if atomic.LoadInt32(&expired) == 1 {
 		cv["exhaustive"] = false
+		cv["byte_edit_note"] = "the time budget of the tier ran out during the byte-edit pass: not every item was covered"
 	}
 	fmt.Printf("  byte edits: items=%d deliveries=%d accepted=%d faults=%d wall=%.1fs\n", len(jobs), delivered, accepted, faults, time.Since(start).Seconds())
 }
